@@ -114,6 +114,11 @@ class LogNormHooks:
             return lv(eng, st, short, self.esum(recv))
         return NotImplemented
 
+    def unary(self, eng, st, op, v, node):
+        if isinstance(op, ast.USub) and isinstance(v, E.Num) and self.expof(v) is not None:
+            return E.Num(-v.real(), npy=True, ghost={'exp': 1 / self.expof(v)})       # exp(-c) = 1 / exp(c)
+        return NotImplemented
+
     def binop(self, eng, st, op, l, r, node):
         # scalar logs
         el, er = self.expof(l), self.expof(r)
